@@ -125,6 +125,15 @@ func c13Program(tp c13Type, n int, idx []string, thorough bool) string {
 	case "bytes":
 		sb.WriteString("for k in [b'', b'a', b'ab', b'bc', 97, 0, 255]:\n    _res.append((6, 6, 0, 0, (t(lambda: k in x), t(lambda: k not in x))))\n")
 	}
+	if tp.name == "list" || tp.name == "tuple" {
+		// membership, equality and ordering look at identity before ==: a nan is found in the container that holds it, objects
+		// without an __eq__ of their own (functions) are found by identity, equal numbers of different types are found by ==
+		conv := tp.name
+		sb.WriteString("nan = float('nan')\ndef fobj():\n    pass\ndef gobj():\n    pass\nels = [nan, fobj, None, 1.0, True, 'a', (1, 2), [3], 2**70]\nz = " + conv + "(els)\n")
+		sb.WriteString("for k in els + [float('nan'), gobj, 1, 1.0 + 0, (1, 2), [3], 'b', 0, False, 2**70, 2.0**70, " + conv + "]:\n    _res.append((6, 15, 0, 0, (t(lambda: k in z), t(lambda: k not in z))))\n")
+		sb.WriteString("_res.append((6, 16, 0, 0, (z == z, z != z, z == " + conv + "(els), z != " + conv + "(els), " + conv + "([nan]) == " + conv + "([nan]), " + conv + "([nan]) == " + conv + "([float('nan')]), " +
+			conv + "([fobj]) == " + conv + "([fobj]), " + conv + "([fobj]) == " + conv + "([gobj]), t(lambda: " + conv + "([fobj, 1]) < " + conv + "([fobj, 2])), t(lambda: " + conv + "([nan, 1]) < " + conv + "([nan, 2])), t(lambda: " + conv + "([fobj, 1]) < " + conv + "([gobj, 2])))))\n")
+	}
 	if !tp.rng {
 		// in-place operators on slices and on sequences built from an iterator: every other reference keeps its value
 		conv := map[string]string{"list": "list", "tuple": "tuple", "str": "''.join", "ustr": "''.join", "bytes": "bytes"}[tp.name]
